@@ -22,6 +22,14 @@ def kmerTable (g : G (List Nat)) (keep : List Nat) : List (Entry (List Nat)) :=
 /-- `recompress <K> <gstranded> <stranded> <join> <reduce> <censor> <nodes>` -/
 def handle (args : List String) (impl : String) : R Ans :=
   match args with
+  | ["iscomp", k, st, jn, nodes] => do
+    -- `is_compressed(spec)`: the first unbranched edge the spec would merge
+    let K ← nat k; let st ← bool st
+    let join ← joinOf jn
+    let ns ← parseNodes nodes
+    let g : G (List Nat) := ⟨K, ns, st⟩
+    let model := match isCompressed g join with | some (i, j) => s!"{i},{j}" | none => "none"
+    pure { model, verdict := if impl == "panic" then "FAIL:panic-in-range" else "ok" }
   | ["tips", k, st, maxLen, nodes] => do
     -- `CleanGraph::new(|n| n.len() < maxLen).find_bad_nodes(g)`
     let K ← nat k; let st ← bool st; let maxLen ← nat maxLen
